@@ -960,8 +960,9 @@ func genMotif(r *rand.Rand, m int, in *kvInput, exists map[string]bool, hot []st
 			put("s1.c2", "dd2", 1+r.Intn(2))
 		}
 		in.Ops = append(in.Ops, Step{Kind: "kv", Coll: "s1.c2", Key: key, Handle: h, Op: &KOp{Kind: "Set", Val: sp(pick(r, jsonBodies[:4]))}, Clock: next()})
+		noReduce := []bool{r.Intn(2) == 0, r.Intn(2) == 0, r.Intn(2) == 0}
 		for j := 0; j < 3; j++ {
-			in.Ops = append(in.Ops, Step{Kind: "view", Coll: cn, Handle: r.Intn(in.Handles), DDoc: "dd", View: fmt.Sprintf("v%d", j), VP: &ViewParams{NoReduce: r.Intn(2) == 0}, Clock: next()})
+			in.Ops = append(in.Ops, Step{Kind: "view", Coll: cn, Handle: r.Intn(in.Handles), DDoc: "dd", View: fmt.Sprintf("v%d", j), VP: &ViewParams{NoReduce: noReduce[j]}, Clock: next()})
 		}
 		if r.Intn(2) == 0 {
 			in.Ops = append(in.Ops, Step{Kind: "view", Coll: "s1.c2", Handle: r.Intn(in.Handles), DDoc: "dd", View: "v0", VP: &ViewParams{}, Clock: next()})
@@ -969,7 +970,7 @@ func genMotif(r *rand.Rand, m int, in *kvInput, exists map[string]bool, hot []st
 		in.Ops = append(in.Ops, Step{Kind: "drop", Coll: "s1.c2", Handle: r.Intn(in.Handles), Fresh: r.Intn(3) == 0, Clock: next()})
 		exists["s1.c2"] = false
 		for j := 0; j < 3; j++ {
-			in.Ops = append(in.Ops, Step{Kind: "view", Coll: cn, Handle: r.Intn(in.Handles), DDoc: "dd", View: fmt.Sprintf("v%d", j), VP: &ViewParams{Stale: r.Intn(4) == 0, NoReduce: r.Intn(2) == 0}, Clock: next()})
+			in.Ops = append(in.Ops, Step{Kind: "view", Coll: cn, Handle: r.Intn(in.Handles), DDoc: "dd", View: fmt.Sprintf("v%d", j), VP: &ViewParams{Stale: r.Intn(2) == 0, NoReduce: noReduce[j]}, Clock: next()})
 		}
 		in.Ops = append(in.Ops, Step{Kind: "getddocs", Coll: cn, Handle: r.Intn(in.Handles), Clock: next()})
 	case motifSweepWindow:
